@@ -57,8 +57,13 @@ def encode_world(w):
     for which in sorted(w.get("sinks", {})):
         after, err = w["sinks"][which]
         out.append(frame("k", "%s %d %d" % (which, after, err)))
-    for u in w.get("user", []):
+    tabs = w.get("tabs") or {}
+    for i, u in enumerate(w.get("user", [])):
+        for pos in tabs.get(str(i), tabs.get(i, [])):
+            out.append(frame("b", "%d" % pos))
         out.append(frame("z") if u is None else frame("u", u))
+    if w.get("winsize"):
+        out.append(frame("w", "%d %d" % (w["winsize"][0], w["winsize"][1])))
     ur = w.get("urandom") or {}
     out.append(frame("r", "%d %d %d" % (ur.get("seed", 1), ur.get("absent_errno", 0), ur.get("short_after", -1))))
     out.append(frame("c", "%d %d %d" % (w.get("cap", 10000), 1 if w.get("fill_stack", True) else 0, 1 if w.get("probe", True) else 0)))
@@ -106,11 +111,11 @@ class Run:
         wk, wc = self.wait
         t = self.term
         first = t[0].split(" ", 1) if t else ["", ""]
+        if wk == "signaled" and wc == 14:
+            return ("hang", "SIGALRM")      # also when the event log overflowed on the way: endless output is a hang
         if self.overflow:
             return ("overflow", "")
         if wk == "signaled":
-            if wc == 14:
-                return ("hang", "SIGALRM")
             return ("signal", "signal %d" % wc)
         if wk == "exited" and wc == 77:
             return ("sanitizer", sanitizer_site(self.raw))
@@ -225,6 +230,8 @@ def parse_run(frames):
             cur.seam.append(p.decode(L1))
         elif tag == "H":
             cur.hist.append(p.decode(L1))
+        elif tag == "C":
+            cur.seam.append("completions " + p.decode(L1)[:200])
         elif tag == "F":
             path, _, data = p.partition(b"\n")
             r.written.append((path.decode(L1)[6:], bytes(data)))
